@@ -1,9 +1,7 @@
 \* thorough tier: every pattern of depth <= 2 over the leaves, the string, list and depth-3 families, the full tree family
-SPECIFICATION SpecGen
+SPECIFICATION SpecFull
 CONSTANTS
   Names <- MCNames
-  PatSeq <- FullPats
-  TreeSeq <- FullTrees
   MergeMode = "union"
   NotMode = "frame"
   IdxMode = "name"
